@@ -588,4 +588,7 @@ LitFill(o, els, k) ==
   IF els = <<>> THEN o
   ELSE LitFill(IF Head(els) = "hole" THEN o ELSE DefineIdx(o, k, PFull(Head(els))).o, Tail(els), k + 1)
 Literal(els) == [LitFill(EmptyObj(TRUE, 0), els, 0) EXCEPT !.len = Len(els)]
+\* How the initial array is made: [c |-> "lit", els] an array literal; [c |-> "new", els] new Array(e1, e2, ...) with
+\* at least two arguments (23.1.1.1 step 6); [c |-> "len", n] new Array(n) (step 5: ArrayCreate(0), then length = n)
+Create(l) == IF l.c = "len" THEN EmptyObj(TRUE, l.n) ELSE Literal(l.els)
 =============================================================================
